@@ -127,6 +127,10 @@ NUM_DOCS += [
     _c.OrderedDict([("0", [1, 2]), ("a", _c.OrderedDict([("0", 3), ("b", [_c.OrderedDict([("1", 4)])])]))]),
     [_c.OrderedDict([("a", [5, 6])]), [7, _c.OrderedDict()]],
 ]
+# the same containers reachable along several paths (shared, not cyclic)
+_X = {"a": [1, {"a": 2}], "0": 3}
+NUM_DOCS += [[_X, _X, {"a": _X, "b": _X["a"]}, [_X["a"], _X["a"]]]]
+N_DIRECT = 3
 NUM_SELS = ["'0'", "'1'", "'-1'", "0", "1", "-1", "'length'", "''", "' '", "'*'", "'0:1'", "'a,b'", "'..'", "*", "0:1"]
 
 
@@ -253,7 +257,8 @@ def run_shard(desc):
         # objects that are OrderedDicts (json.load(object_pairs_hook=OrderedDict)): compared directly,
         # without the JSON round trip of check_case
         from mc.core import diff as _diff
-        for doc in NUM_DOCS[-2:]:
+        for di in range(len(NUM_DOCS) - N_DIRECT, len(NUM_DOCS)):
+            doc = NUM_DOCS[di]
             for _, t1 in SEGMENTS:
                 for t2 in [""] + [t for _, t in SEGMENTS]:
                     text = "$" + t1 + t2
@@ -263,7 +268,7 @@ def run_shard(desc):
                     sh.evaluations += 1
                     d = _diff.diff(text, doc)
                     if d:
-                        sh.violation(violation(d[0], {"query": text, "ordered_dict_doc": NUM_DOCS.index(doc)}, d[1], d[2], "wrong"))
+                        sh.violation(violation(d[0], {"query": text, "ordered_dict_doc": di}, d[1], d[2], "wrong"))
         # the bare root query: exactly the root node, whatever the document is
         from mc.gen import docs as _gd
         for doc in get_docs(3) + _gd.kinds() + NUM_DOCS:
